@@ -19,7 +19,7 @@ ARGS = {
     'm': ((3,), bool, None),
     # equal-length axes: an axis mix-up in a rewrite rule is silent (no shape error) only when the lengths agree
     'K': ((2, 2, 2), float, None), 'L': ((2, 2, 2), float, None), 'R': ((4, 2, 2), float, None), 'P': ((2, 3, 2), float, None), 'H': ((2, 2, 3), float, None),
-    'u': ((2,), float, None), 'v': ((2,), float, None), 'W': ((2, 2), float, None),
+    'u': ((2,), float, None), 'v': ((2,), float, None), 'W': ((2, 2), float, None), 'F': ((2, 2, 2, 2), float, None),
     'c': ((2, 2, 2), int, (0, 1)),
     'n': ((), int, (0, 2)), 'k': ((2,), int, (0, 2)), 'j': ((3,), int, (-3, 3)), 'p': ((3,), int, (0, 1)),
 }
@@ -383,6 +383,18 @@ def multi_factor():
     yield ('loop_sum', ('mul', ('mul', ('take', u, ('lidx', 'i', 2), 0), ('take', W, ('lidx', 'i', 2), 0)), ('take', K, ('lidx', 'i', 2), 1)), ('lidx', 'i', 2))
     yield ('loop_sum', ('inflate', ('mul', ('take', K, ('lidx', 'i', 2), 0), ('insertaxis', ('take', W, ('lidx', 'i', 2), 1), 0, 2)), ('cvec', 'dup22'), 3, 0), ('lidx', 'i', 2))
 
+def double_diagonals():
+    '''a diagonal of a diagonal (TakeDiag._takediag and the rules it forwards to) over a 4-axis operand with equal lengths'''
+    F, K, W = ('arg', 'F'), ('arg', 'K'), ('arg', 'W')
+    inners = [F, ('take', F, ('cvec', 'perm2'), 3), ('take', F, ('cvec', 'dup2'), 0), ('take', F, ('arg', 'k'), 1), ('mul', F, ('transpose', F, 'r')), ('add', F, ('transpose', F, 'c')),
+              ('insertaxis', K, 1, 2), ('insertaxis', K, 3, 2), ('mul', F, ('insertaxis', K, 0, 2)), ('inflate', F, ('cvec', 'perm2'), 2, 2), ('sin', ('take', F, ('cvec', 'perm2'), 2)),
+              ('diagonalize', K, 0, 3), ('diagonalize', K, 1, 2), ('sum', ('insertaxis', F, 2, 2), 2), ('product', ('insertaxis', F, 0, 2), 0), ('unravel', ('ravel', F, 1), 1, 2, 2), ('outer', W, W) if False else ('mul', ('insertaxis', ('insertaxis', W, 0, 2), 0, 2), F)]
+    for a in inners:
+        for (i, j) in ((0, 1), (2, 3), (0, 2), (1, 3), (0, 3), (1, 2)):
+            for (k, l) in ((0, 1), (0, 2), (1, 2)):
+                yield ('takediag', ('takediag', a, i, j), k, l)
+        yield ('sum', ('takediag', ('takediag', a, 0, 1), 0, 1), 0)
+
 def structured(level=2):
     '''targeted family: structural constructor pairs over equal-length leaves, structural constructors over binary nodes, multi-factor products'''
     for a in CUBE_LEAVES:
@@ -390,6 +402,7 @@ def structured(level=2):
             yield f
             if level >= 2:
                 for g in structural_forms(f): yield g
+    yield from double_diagonals()
     for b in list(cube_binary()) + list(multi_factor()):
         yield b
         for g in structural_forms(b):
